@@ -338,17 +338,17 @@ PROPS = {
                              search=[('taintops', ['-n', 20000]), ('hist', ['-n', 1500, '-scans', 12]), ('hist', ['-n', 1500, '-scans', 12, '-focus', 'down']), ('hist', ['-n', 32, '-scans', 8, '-focus', 'down', '-slow'])]),
                 aspects=['journal', 'ok', 'time', 'age', 'panic', 'hist:updates'], monitors=['C15'],
                 theorems=['Esc.P.C15_add', 'Esc.P.C15_add_idempotent', 'Esc.P.C15_delete', 'Esc.P.C15_no_restamp', 'Esc.P.C15_history',
-                          'Esc.P.swapRemoveFirst_perm', 'Esc.P.C15_precise_add', 'Esc.P.C15_precise_delete', 'Esc.P.C15_history_stamp', 'Esc.P.C15_delete_success_means_written', 'Esc.P.C15_add_success_means_written'],
+                          'Esc.P.swapRemoveFirst_perm', 'Esc.P.C15_precise_add', 'Esc.P.C15_precise_delete', 'Esc.P.C15_history_stamp', 'Esc.P.C15_delete_success_means_written', 'Esc.P.C15_add_success_means_written', 'Esc.P.C15_scan_no_restamp_in_view', 'Esc.P.C15_removal_lowers_count'],
                 technique='Lean 4 theorem (exact object of every UPDATE relative to the preceding GET; swap-remove preserves the other taints as a multiset; no re-stamp along histories) + differential correspondence on complete UPDATE objects + monitor',
                 level_text='C15_delete_success_means_written / C15_add_success_means_written: success is reported only after an accepted UPDATE when the copy the API server returned needed one. C15_add/C15_delete: the UPDATE object is the fetched object plus exactly the stamped escalator taint (effect or NoSchedule) on an object without one, or minus its first escalator taint, all other fields and taints preserved; '
                            'C15_precise_add / C15_precise_delete: the objects the model writes satisfy the very predicate the monitor evaluates on observed UPDATEs (taints compared as a multiset: the property does not fix their order); C15_add_idempotent: an already tainted node gets no UPDATE; C15_no_restamp/C15_history: no write ever gives an already tainted node a different escalator taint. '
                            'Tie: taintops (direct calls, stale views, odd taint values, faults) and hist; full objects compared (plus a digest of every unmodelled field); monitor on observed GET/UPDATE pairs.',
                 level_note=LEVEL_NOTE),
     'C20': dict(level='proof', module='EscProofs.P.C20',
-                streams=dict(quick=[('scenario', ['-dir', '@ROOT/corpus/C20']), ('hist', ['-n', 500, '-scans', 8, '-focus', 'faults']), ('hist', ['-n', 16, '-scans', 7, '-focus', 'churn', '-slow']), ('hist', ['-n', 24, '-scans', 8, '-focus', 'fleetfail'])],
-                             thorough=[('scenario', ['-dir', '@ROOT/corpus/C20']), ('hist', ['-n', 30000, '-scans', 10, '-focus', 'faults']), ('hist', ['-n', 160, '-scans', 6, '-focus', 'faults', '-slow']), ('hist', ['-n', 160, '-scans', 8, '-focus', 'churn', '-slow']), ('hist', ['-n', 600, '-scans', 10, '-focus', 'fleetfail'])],
-                             search=[('hist', ['-n', 2500, '-scans', 8, '-focus', 'faults']), ('hist', ['-n', 32, '-scans', 8, '-focus', 'churn', '-slow']), ('hist', ['-n', 80, '-scans', 8, '-focus', 'fleetfail'])]),
-                aspects=['hist:outcome', 'hist:reccount', 'hist:ok', 'panic'], monitors=['C20'],
+                streams=dict(quick=[('scenario', ['-dir', '@ROOT/corpus/C20']), ('hist', ['-n', 500, '-scans', 8, '-focus', 'faults']), ('hist', ['-n', 16, '-scans', 7, '-focus', 'churn', '-slow']), ('hist', ['-n', 24, '-scans', 8, '-focus', 'fleetfail']), ('forever', [])],
+                             thorough=[('scenario', ['-dir', '@ROOT/corpus/C20']), ('hist', ['-n', 30000, '-scans', 10, '-focus', 'faults']), ('hist', ['-n', 160, '-scans', 6, '-focus', 'faults', '-slow']), ('hist', ['-n', 160, '-scans', 8, '-focus', 'churn', '-slow']), ('hist', ['-n', 600, '-scans', 10, '-focus', 'fleetfail']), ('forever', [])],
+                             search=[('hist', ['-n', 2500, '-scans', 8, '-focus', 'faults']), ('hist', ['-n', 32, '-scans', 8, '-focus', 'churn', '-slow']), ('hist', ['-n', 80, '-scans', 8, '-focus', 'fleetfail']), ('forever', [])]),
+                aspects=['hist:outcome', 'hist:reccount', 'hist:ok', 'panic', 'forever-outcome'], monitors=['C20'],
                 theorems=['Esc.P.C20_outcomes', 'Esc.P.C20_fatal_only_partial', 'Esc.P.C20_contained', 'Esc.P.C20_provider_id_guard', 'Esc.P.C20_ready_bounded',
                           'Esc.P.C12_containment', 'Esc.P.C20_stop_founded', 'Esc.P.tryDelete_notInGroup', 'Esc.P.forever_stops_on_every_error'],
                 technique='Lean 4 theorem (totality/termination of the model by construction, enumeration of RunOnce outcomes, error containment, index guard) + differential correspondence of the outcome class of every scan under odd object shapes and single/double injected faults + monitor; partial',
